@@ -3,6 +3,7 @@ package main
 // Syntactic, interprocedural write-set summaries for repository functions that have no contract.
 
 import (
+	"fmt"
 	"go/ast"
 	"go/token"
 	"go/types"
@@ -355,6 +356,33 @@ func (x *Exec) applyModSummary(fu *FuncUnit, recv *Value, args []Value, st *Stat
 		x.havocPrefix(st, fu.Pkg.Types.Name()+"::"+g)
 	}
 	if ms.Fatal {
-		x.abstract(fu.Name + " may abort the process (log.Fatal); the aborting paths are not followed")
+		if _, on := x.safetyOn("nofatal"); !on {
+			x.abstract(fu.Name + " may abort the process (log.Fatal); the aborting paths are not followed")
+		}
 	}
+}
+
+// calleeAbort: under "safety nofatal" a callee that may abort the process (it or its callees reach log.Fatal/os.Exit/
+// log.Panic) is an obligation that cannot be discharged, unless its contract states when it aborts (aborts-only: an
+// assumption, listed) or its own body is verified under safety nofatal. Reported, never assumed away.
+func (x *Exec) calleeAbort(fu *FuncUnit, uc *UnitContract, st *State) {
+	tags, on := x.safetyOn("nofatal")
+	if !on || x.specDepth > 0 || x.dry > 0 {
+		return
+	}
+	if !x.prog.ModSummary(fu).Fatal {
+		return
+	}
+	if uc != nil {
+		if uc.AbortsOnly != "" {
+			x.trustedUsed[fu.Name+" aborts the process only when: "+uc.AbortsOnly+" : assumed at "+x.uc.ID()] = true
+			return
+		}
+		if _, ok := uc.Safety["nofatal"]; ok && !uc.Trusted {
+			return
+		}
+	}
+	x.callCount["abort:"+fu.Name]++
+	x.assert(st, False, "no-abort-call", fmt.Sprintf("%s/no-abort:call-%s@%d", x.uc.ID(), fu.Name, x.callCount["abort:"+fu.Name]), tags, token.NoPos,
+		"callee "+fu.Name+" may abort the process (log.Fatal/os.Exit reachable in its body or its callees) and has no contract excluding it")
 }
